@@ -1152,3 +1152,115 @@ M('c18-local-connection-handled', 'C18', 'fire:V3',
 M('c18-signature-prefix-mismatch', 'C18', 'fire:V3',
   (PX, '''            elif initial == b'\\r\\n\\r\\n\\x00\\r\\nQ':''',
    '''            elif initial == b'\\r\\n\\r\\n\\x00\\r\\nq':''', 1))
+
+# ---------------------------------------------------------------- C15
+CS = 'slimta/cloudstorage/__init__.py'
+AWS = 'slimta/cloudstorage/aws.py'
+QD = 'slimta/queue/dict.py'
+M('c15-redis-no-remove', 'C15', 'fire:I1',
+  (RS, '''    def remove(self, id):
+        self.redis.delete(self._get_key(id))
+        log.remove(id)
+
+''', '', 1))
+M('c15-dict-increment-returns-old', 'C15', 'fire:I2',
+  (QD, '''        log.update_meta(id, attempts=new_attempts)
+        return new_attempts''', '''        log.update_meta(id, attempts=new_attempts)
+        return meta''', 1))
+M('c15-disk-increment-no-return', 'C15', 'fire:I2',
+  (DS, '''        log.update_meta(id, attempts=new_attempts)
+        return new_attempts''', '''        log.update_meta(id, attempts=new_attempts)''', 1))
+M('c15-dict-get-envelope-only', 'C15', 'fire:I2',
+  (QD, '''        return self.env_db[id], meta['attempts']''',
+   '''        return self.env_db[id]''', 1))
+M('c15-aws-unpacks-dict', 'C15', 'fire:I2',
+  (AWS, '''            meta = self.get_message_meta(id)
+            yield (meta['timestamp'], id)''', '''            timestamp, attempts = self.get_message_meta(id)
+            yield (timestamp, id)''', 1))
+M('c15-cloud-attempts-subscript', 'C15', 'fire:I3',
+  (CS, '''        new_attempts = meta.get('attempts', 0) + 1''',
+   '''        new_attempts = meta['attempts'] + 1''', 1))
+M('c15-dict-no-collision-test', 'C15', 'fire:I4',
+  (QD, '''            if id not in self.env_db:
+                self.env_db[id] = envelope
+                self.meta_db[id] = {'timestamp': timestamp, 'attempts': 0}
+                log.write(id, envelope)
+                return id''', '''            self.env_db[id] = envelope
+            self.meta_db[id] = {'timestamp': timestamp, 'attempts': 0}
+            log.write(id, envelope)
+            return id''', 1))
+M('c15-disk-no-collision-test', 'C15', 'fire:I4',
+  (DS, '''            if not self.ops.check_exists(id):
+                self.ops.write_env(id, envelope)''', '''            if True:
+                self.ops.write_env(id, envelope)''', 1))
+M('c15-cloud-get-forgets-marks', 'C15', 'fire:I6',
+  (CS, '''        delivered_rcpts = meta.get('delivered_indexes', [])
+        self._remove_delivered_rcpts(envelope, delivered_rcpts)
+        return envelope, meta.get('attempts', 0)''',
+   '''        return envelope, meta.get('attempts', 0)''', 1))
+
+# ---------------------------------------------------------------- C16
+SP = 'slimta/policy/split.py'
+HD = 'slimta/policy/headers.py'
+FW = 'slimta/policy/forward.py'
+ENV = 'slimta/envelope/__init__.py'
+M('c16-split-skips-first', 'C16', 'fire:P1',
+  (SP, '''        for rcpt in envelope.recipients:
+            new_env = envelope.copy([rcpt])
+            ret.append(new_env)''', '''        for rcpt in envelope.recipients:
+            if rcpt == envelope.recipients[0] and ret:
+                continue
+            new_env = envelope.copy([rcpt])
+            ret.append(new_env)''', 1))
+M('c16-domain-bad-rcpt-dropped', 'C16', 'fire:P1',
+  (SP, '''            except ValueError:
+                bad_rcpts.append(rcpt)''', '''            except ValueError:
+                pass''', 1))
+M('c16-domain-no-bad-rcpt-copies', 'C16', 'fire:P1',
+  (SP, '''        for bad_rcpt in bad_rcpts:
+            self._append_envelope_copy(envelope, ret, [bad_rcpt])
+''', '', 1))
+M('c16-split-keeps-original-too-often', 'C16', 'fire:P1',
+  (SP, '''        if len(envelope.recipients) <= 1:
+            return''', '''        if len(envelope.recipients) <= 2:
+            return''', 1))
+M('c16-shallow-copy', 'C16', 'fire:P2',
+  (ENV, '''        new_env = copy.deepcopy(self)''', '''        new_env = copy.copy(self)''', 1))
+M('c16-shared-rcpt-list', 'C16', 'fire:P2',
+  (SP, '''        ret = []
+        for rcpt in envelope.recipients:
+            new_env = envelope.copy([rcpt])
+            ret.append(new_env)''', '''        ret = []
+        shared = list(envelope.recipients)
+        for rcpt in envelope.recipients:
+            new_env = envelope.copy(shared)
+            ret.append(new_env)''', 1))
+M('c16-date-unconditional', 'C16', 'fire:P3',
+  (HD, '''        if 'date' not in envelope.headers:
+            envelope.headers['Date'] = self.build_date(envelope.timestamp)''',
+   '''        envelope.headers['Date'] = self.build_date(envelope.timestamp)''', 1))
+M('c16-received-appended', 'C16', 'fire:P3',
+  (HD, '''        envelope.prepend_header('Received', data)''',
+   '''        envelope.headers['Received'] = data''', 1))
+M('c16-prepend-at-end', 'C16', 'fire:P3',
+  (ENV, '''        self.headers._headers.insert(0, (name, value))''',
+   '''        self.headers._headers.insert(len(self.headers._headers), (name, value))''', 1))
+M('c16-forward-overwrites-unmatched', 'C16', 'fire:P4',
+  (FW, '''                if new_rcpt and changes > 0:''', '''                if new_rcpt:''', 1))
+M('c16-forward-no-break', 'C16', 'fire:P4',
+  (FW, '''                    envelope.recipients[i] = new_rcpt
+                    break''', '''                    envelope.recipients[i] = new_rcpt
+                    old_rcpt = new_rcpt''', 1))
+M('c16-policies-original-kept', 'C16', 'fire:P5',
+  (Q, '''            if ret:
+                results.remove(current)
+                results.extend(ret)''', '''            if ret:
+                results.extend(ret)''', 1))
+M('c16-policies-skip-next', 'C16', 'fire:P5',
+  (Q, '''                for env in ret:
+                    recurse(env, i+1)''', '''                for env in ret:
+                    recurse(env, i+2)''', 1))
+M('c16-policies-stop-on-none', 'C16', 'fire:P5',
+  (Q, '''            else:
+                recurse(current, i+1)
+        recurse(envelope, 0)''', '''        recurse(envelope, 0)''', 1))
